@@ -12,7 +12,7 @@ from vlib import Broken
 
 TIMES = {}
 DRIVER = os.path.join(vlib.VERIF, "harness", "scm", "codec.scm")
-PROC_TIMEOUT = 120
+PROC_TIMEOUT = 300
 
 
 # ----------------------------------------------------------------------------------------------
@@ -94,7 +94,7 @@ def rbytes(rng, n):
 def big_sizes(rng, thorough):
     """seeded sample of lengths 65..4096 hitting every residue mod 12 (hence mod 3 and mod 4)"""
     out = set([2047, 2048, 2049, 2050, 4095, 4096, 2221, 2222, 2223, 2224])
-    reps = 3 if thorough else 1
+    reps = 8 if thorough else 1
     for r in range(12):
         for _ in range(reps):
             n = rng.randrange(65, 4097)
@@ -115,7 +115,7 @@ def gen_bytestring_cases(rng, small, thorough):
         cases.append(Case("uri", "latin1", [C(b), 0]))
         cases.append(Case("uri", "plus", [C(b), 1]))
     # every length 0..64, every byte value
-    inputs = [rbytes(rng, n) for n in range(0, 65)]
+    inputs = [rbytes(rng, n) for n in range(0, 257 if thorough else 65)]
     inputs += [bytes(range(256))] + [bytes(range(16 * i, 16 * i + 16)) for i in range(16)]
     inputs += [bytes([b]) * n for b in (0, 61, 97, 255, 32, 37) for n in (1, 2, 3, 24, 25, 26)]
     for b in inputs:
@@ -304,7 +304,9 @@ def gen_uv_cases(rng, thorough):
                 out.append(Case("uv", "uv:" + dc, [Sym(ty), n, fill, Sym("ref"), i, 0]))
                 out.append(Case("uv", "uv:" + dc, [Sym(ty), n, fill, Sym("set"), i, rng.choice(vals)]))
         for v in vals:
-            out.append(Case("uv", "uv:in", [Sym(ty), 3, rng.choice(vals), Sym("set"), rng.randrange(3), v]))
+            for i in range(3):                       # every limit value at every position, neighbours different
+                fill = rng.choice([x for x in vals if x != v])
+                out.append(Case("uv", "uv:in", [Sym(ty), 3, fill, Sym("set"), i, v]))
             out.append(Case("uv", "uv:in", [Sym(ty), 3, v, Sym("ref"), rng.randrange(3), 0]))
         out.append(Case("uv", "uv:oob", [Sym(ty), 0, 0, Sym("ref"), 0, 0]))
     return out
@@ -503,7 +505,7 @@ def gen_json_cases(rng, thorough):
             toks += [[9] + list(k)] + rval(depth + 1)
         return toks + [[8]]
 
-    n = 1500 if thorough else 250
+    n = 6000 if thorough else 250
     for _ in range(n):
         toks = rval(rng.choice([0, 0, 3, 6]))
         if len(toks) > 120:
@@ -557,7 +559,7 @@ def gen_csv_cases(rng, thorough):
     add("plain", [["a", "b", "c"], ["d", "e", "f"], ["g", "h", "i"]])
     add("plain", [["", ""], ["", "", ""]])
     add("plain", [["a"], ["b", "c"], ["d", "e", "f"]])
-    for _ in range(400 if thorough else 60):
+    for _ in range(1000 if thorough else 60):
         rows = []
         for _ in range(rng.randrange(1, 6)):
             r = [rng.choice(C_FIELDS)[1] for _ in range(rng.randrange(1, 6))]
@@ -595,7 +597,7 @@ def mutate(rng, b, n):
 
 def gen_hostile_cases(rng, thorough):
     import quopri, urllib.parse, csv as pycsv, io
-    nm = 40 if thorough else 10
+    nm = 100 if thorough else 10
     out = []
 
     def add(dec, cls, b):
@@ -732,7 +734,7 @@ def run_chunk(build, sc, label, cases, env=None):
         got = [expand(ln) for ln in outb.decode("ascii", errors="replace").split("\n") if ln.startswith("{") and ln.endswith("}")]
         done = any(ln.startswith('{"e":"Done"') for ln in got)
         lines += got
-        lines.append('{"e":"X","id":0,"rc":%d,"to":%d}' % (rc, to))
+        lines.append('{"e":"X","id":0,"rc":%d,"to":%d,"grp":"%s"}' % (rc, to, re.sub(r"_?\d+$", "", label)))
         if done:
             break
         # which case was open when the process ended?
@@ -802,13 +804,13 @@ def selftest(sc, lines):
             out += ['{"e":"B","id":900003}', json.dumps(bad, separators=(",", ":"))]
         elif ev["kind"] == "h" and "h" not in want:
             want["h"] = (900004, "crash")
-            out += ['{"e":"B","id":900004}', '{"e":"X","id":0,"rc":-11,"to":0}']   # result never recorded
+            out += ['{"e":"B","id":900004}', '{"e":"X","id":0,"rc":-11,"to":0,"grp":"selftest"}']   # result never recorded
         if len(want) == 4:
             break
     if len(want) < 3:
         raise Broken("self-test: could not find events to corrupt")
     if not out[-1].startswith('{"e":"X"'):
-        out.append('{"e":"X","id":0,"rc":0,"to":0}')
+        out.append('{"e":"X","id":0,"rc":0,"to":0,"grp":"selftest"}')
     _, rej, _ = validate(sc, "selftest", out)
     rej = dict(rej)
     for kind, (i, claim) in want.items():
@@ -819,6 +821,8 @@ def selftest(sc, lines):
 def key_of(c, claim):
     """structural key of a rejection: kind, failed claim, class of the input"""
     cls = c.cls
+    if cls == "probe" and claim in ("crash", "hang") and c.feat:
+        return "h:%s:%s" % (claim, c.feat[0])        # the probe after a hostile batch died: containment of that decoder
     if c.kind == "h":
         cls = cls.split(":")[0]                      # the decoder; which mutation hit it is incidental
     elif c.kind == "json" and claim in ("write", "reread") and cls.startswith("str:"):
@@ -879,6 +883,7 @@ def run():
                 for c in pc:
                     nid += 1
                     c.id = nid
+                    c.feat = (dec,)
                 cases += pc
                 chunks.append(("h_%s_%d" % (dec, j), cs[j::nch] + pc))
         byid = {c.id: c for c in cases + hostile}
@@ -941,8 +946,8 @@ def run():
             if c.cls != "mixed":
                 for cl in claims:
                     focused.add(key_of(c, cl))
-        for claims in proc_rej:
-            by_key.setdefault("process:%s" % claims[0], []).append((0, claims))
+        for claims in proc_rej:                       # a process died between two cases: keyed by what it was running
+            by_key.setdefault("process:%s" % ":".join(claims), []).append((0, claims))
         for i, claims in sorted(rejected.items()):
             c = byid[i]
             for cl in claims:
@@ -1018,7 +1023,7 @@ def replay(path):
         except subprocess.TimeoutExpired as ex:
             rc, outb, to = -9, ex.stdout or b"", 1
         lines = [expand(ln) for ln in outb.decode("ascii", errors="replace").split("\n") if ln.startswith("{") and ln.endswith("}")]
-        lines.append('{"e":"X","id":0,"rc":%d,"to":%d}' % (rc, to))
+        lines.append('{"e":"X","id":0,"rc":%d,"to":%d,"grp":"replay"}' % (rc, to))
         for ln in lines:
             print(ln[:1500])
         acc, rej, _ = validate(sc, "replay", lines)
